@@ -271,3 +271,23 @@ def run_case(case, ctx):
             ctx.violation("%s:prog-raises:%s" % (vtag, type(e).__name__), "%r in %s" % (e, case["id"]))
             continue
         _check_code(ctx, vtag, ver, case["id"] + "/" + rc["name"], xc.co_code, xins, rc, opc, P, True)
+    # the same flags through Bytecode.get_instructions(x) of an object built for *another* code object (a driver that keeps
+    # one Bytecode around): the argument's own labels count, not those of the object the instance was made for
+    xcs = walk_xcodes(co)
+    if len(xcs) > 1:
+        from xdis.bytecode import Bytecode
+
+        try:
+            keeper = Bytecode(xcs[0], opc)
+            for xc, rc in list(zip(xcs, case["codes"]))[1:]:
+                if rc.get("flags") is None or len(xc.co_code) > 600:
+                    continue
+                ctx.count("get_instructions_on_other_object")
+                got = set(i.offset for i in keeper.get_instructions(xc) if i.is_jump_target and i.opname != "CACHE")
+                want = set(rc["flags"])
+                # get_instructions() takes no exception table: handler targets are Bytecode's addition (as in dis)
+                if got - set(rc.get("exc") or []) != want - set(rc.get("exc") or []):
+                    ctx.violation("%s:is_jump_target:get_instructions-of-other-object" % vtag, "Bytecode(%s).get_instructions(%s) flags %s, CPython %s (%s)"
+                                  % (xcs[0].co_name, xc.co_name, sorted(got)[:8], sorted(want)[:8], case["id"]))
+        except Exception as e:
+            ctx.violation("%s:get_instructions-of-other-object:raises:%s" % (vtag, type(e).__name__), "%r (%s)" % (e, case["id"]))
